@@ -65,7 +65,7 @@ def foldX' (A0 A1 : List Node) (ls lb le : Event) : List Event :=
 theorem foldX_eq (A0 A1 : List Node) (k : Nat) : foldX A0 A1 k = flattenL (foldSrc A0 A1 k) := by
   simp [foldX, foldSrc, flattenL_append]
 
-theorem foldX'_eq (A0 A1 : List Node) (ls lb le : Event) :
+theorem foldDstX_eq (A0 A1 : List Node) (ls lb le : Event) :
     foldX' A0 A1 ls lb le = flattenL (foldDst A0 A1 ls lb le) := by
   simp [foldX', foldDst, flattenL, flattenN, flattenL_append]
 
@@ -85,7 +85,7 @@ theorem fold_songRel {A0 A1 : List Node} {k : Nat} {ls lb le : Event}
     (hS' : S'.tracks = l1 ++ (tid, pre ++ foldX' A0 A1 ls lb le ++ post) :: l2) :
     SongRel (foldSrc A0 A1 k) (foldDst A0 A1 ls lb le) S S' := by
   apply SongRel.of_tracks
-  rw [hS, hS', foldX_eq, foldX'_eq]
+  rw [hS, hS', foldX_eq, foldDstX_eq]
   exact TracksRel.one (ERel.refl _ _) l1 l2 tid (ERel.ctx _ _ pre post)
 
 /-- both directions at once, for a track `id` of the song -/
@@ -126,7 +126,7 @@ theorem C01_fold_sound_root {A0 A1 : List Node} {k : Nat} {ls lb le : Event} (h 
     SongRel.of_tracks (TracksRel.refl (ERel.refl _ _) _)
   have hr : ERel (foldSrc A0 A1 k) (foldDst A0 A1 ls lb le)
       (pre ++ foldX A0 A1 k ++ post) (pre ++ foldX' A0 A1 ls lb le ++ post) := by
-    rw [foldX_eq, foldX'_eq]; exact ERel.ctx _ _ pre post
+    rw [foldX_eq, foldDstX_eq]; exact ERel.ctx _ _ pre post
   exact (C01_fold_rel h htr hr).sound hp hp'
 
 /-- **Loop fold, acceptance.**  If the original performance validates, the folded one validates
@@ -163,7 +163,7 @@ def fold0X (A : List Node) (k : Nat) : List Event := flattenL (List.replicate (k
 /-- `[ A ](k+1)` -/
 def fold0X' (A : List Node) (ls le : Event) : List Event := ls :: (flattenL A ++ [le])
 
-theorem fold0X'_eq (A : List Node) (ls le : Event) : fold0X' A ls le = flattenL (fold0Dst A ls le) := by
+theorem fold0DstX_eq (A : List Node) (ls le : Event) : fold0X' A ls le = flattenL (fold0Dst A ls le) := by
   simp [fold0X', fold0Dst, flattenL, flattenN]
 
 theorem C01_fold0_rel {A : List Node} {k : Nat} {ls le : Event} (h : Fold0Side A k ls le)
@@ -182,7 +182,7 @@ theorem fold0_track_rel {A : List Node} {k : Nat} {ls le : Event} (h : Fold0Side
     ResRel (perf S t) (perf S' t') := by
   have htr : SongRel (fold0Src A k) (fold0Dst A ls le) S S' := by
     apply SongRel.of_tracks
-    rw [hS, hS', fold0X'_eq]
+    rw [hS, hS', fold0DstX_eq]
     exact TracksRel.one (ERel.refl _ _) l1 l2 tid (ERel.ctx _ _ pre post)
   obtain ⟨t'', h1, hr⟩ := htr id t ht
   rw [ht'] at h1
@@ -410,5 +410,113 @@ theorem C01_full_partial (optimize : Nat → Song → Except Unit Song)
   obtain ⟨l, hc, hl, hd⟩ := hopt thr S S' hr
   rw [← hl]
   exact C01_passes_preserve_nodepth S l hc id (hS id hid) (fun T hT t' ht' => hd T hT id t' ht')
+
+
+/-! ## concrete instances
+
+The hypotheses are satisfiable by non-trivial values, and the conclusions are checked by
+kernel evaluation (`decide`) on small songs. -/
+namespace Ex
+
+instance : DecidableEq (Nat × Int × Nat × Nat) := inferInstance
+instance : DecidableEq Obs := inferInstance
+
+def note (n : Int) : Event := ⟨ev_NOTE, n, 6, 0⟩
+def lsE : Event := ⟨ev_LOOP_START, 0, 0, 0⟩
+def lbE : Event := ⟨ev_LOOP_BREAK, 0, 0, 0⟩
+def leE (n : Int) : Event := ⟨ev_LOOP_END, n, 0, 0⟩
+def jmp (n : Int) : Event := ⟨ev_JUMP, n, 0, 0⟩
+def segnoE : Event := ⟨ev_SEGNO, 0, 0, 0⟩
+
+/-- `A0 = c`, `A1 = [d]2 e` -/
+def A0 : List Node := [.ev (note 1)]
+def A1 : List Node := [.loop lsE [.ev (note 2)] (leE 2), .ev (note 3)]
+
+theorem side : FoldSide A0 A1 1 lsE lbE (leE 3) := by
+  constructor <;> first | decide | (simp [A0, A1, closedL, Node.closed] <;> decide)
+
+/-- the context opens a loop before the segment and closes it after it (so neither `pre` nor
+`post` is balanced), and has a loop point -/
+def pre : List Event := [note 9, segnoE, lsE, note 8]
+def post : List Event := [note 7, leE 2, note 6]
+
+/-- track 0 calls track 1, which contains `A A A0` -/
+def S : Song := { tracks := [(0, [note 5, jmp 1, note 5]), (1, pre ++ foldX A0 A1 1 ++ post)] }
+def S' : Song := { tracks := [(0, [note 5, jmp 1, note 5]), (1, pre ++ foldX' A0 A1 lsE lbE (leE 3) ++ post)] }
+
+example : foldX A0 A1 1 = [note 1, lsE, note 2, leE 2, note 3, note 1, lsE, note 2, leE 2, note 3, note 1] := by decide
+example : foldX' A0 A1 lsE lbE (leE 3) = [lsE, note 1, lbE, lsE, note 2, leE 2, note 3, leE 3] := by decide
+
+/-- the theorem applies to this song: for the rewritten track and for its caller -/
+example (id : Nat) (t t' : List Event) (ht : S.track? id = some t) (ht' : S'.track? id = some t')
+    (items items' : List Item) (hp : perf S t = .ok items) (hp' : perf S' t' = .ok items') :
+    obs items' = obs items :=
+  C01_fold_sound side S S' [(0, [note 5, jmp 1, note 5])] [] 1 pre post rfl rfl id t t' ht ht' items items' hp hp'
+
+/-- … and its conclusion, evaluated: both tracks validate before and after and are observed equal
+(24 notes and the loop point event in track 1, 144 ticks, loop point at tick 6) -/
+example : obsOf S' 1 = obsOf S 1 ∧ obsOf S' 0 = obsOf S 0 ∧
+    (obsOf S 1).map (fun o => (o.1.length, o.2)) = some (25, 144, some 6) ∧ (obsOf S 0).isSome = true := by
+  decide
+
+/-- the depth proviso of `C01_fold_accepts` cannot be dropped (defect D18): nine enclosing loops
+plus the loop inside `A1` use all ten frames; the fold needs an eleventh -/
+def deepPre : List Event := List.replicate 9 lsE
+def deepPost : List Event := List.replicate 9 (leE 1)
+
+def isOk : Res → Bool | .ok _ => true | .error _ => false
+def isDepthErr : Res → Bool | .error .depth => true | _ => false
+
+example : isOk (perf ⟨[]⟩ (deepPre ++ foldX A0 A1 0 ++ deepPost)) = true ∧
+    isDepthErr (perf ⟨[]⟩ (deepPre ++ foldX' A0 A1 lsE lbE (leE 2) ++ deepPost)) = true := by
+  decide
+
+/-- fold without remainder: `(c [d]2 e)^3 ↦ [c [d]2 e]3` -/
+theorem side0 : Fold0Side (A0 ++ A1) 2 lsE (leE 3) := by
+  constructor <;> first | decide | (simp [A0, A1, closedL, Node.closed] <;> decide)
+
+def T : Song := { tracks := [(3, pre ++ fold0X (A0 ++ A1) 2 ++ post)] }
+def T' : Song := { tracks := [(3, pre ++ fold0X' (A0 ++ A1) lsE (leE 3) ++ post)] }
+
+example (id : Nat) (t t' : List Event) (ht : T.track? id = some t) (ht' : T'.track? id = some t')
+    (items items' : List Item) (hp : perf T t = .ok items) (hp' : perf T' t' = .ok items') :
+    obs items' = obs items :=
+  C01_fold0_sound side0 T T' [] [] 3 pre post rfl rfl id t t' ht ht' items items' hp hp'
+
+example : obsOf T' 3 = obsOf T 3 ∧ (obsOf T 3).isSome = true := by decide
+
+/-- extraction of `X = c [d]2 e` (twice in track 0, once inside a loop of track 2) into the
+fresh track 15000 -/
+def X : List Node := A0 ++ A1
+def j : Event := jmp 15000
+
+theorem sideX : ExtractSide X j := by
+  constructor <;> first | decide | (simp [X, A0, A1, closedL, Node.closed] <;> decide)
+
+def U : Song := { tracks := [(0, [note 9] ++ flattenL X ++ [note 8] ++ flattenL X ++ [segnoE]),
+                             (2, [lsE] ++ flattenL X ++ [leE 2])] }
+def U' : Song := { tracks := [(0, [note 9] ++ [j] ++ [note 8] ++ [j] ++ [segnoE]),
+                              (2, [lsE] ++ [j] ++ [leE 2]),
+                              (15000, flattenL X)] }
+
+example (id : Nat) (t t' : List Event) (ht : U.track? id = some t) (ht' : U'.track? id = some t')
+    (items items' : List Item) (hp : perf U t = .ok items) (hp' : perf U' t' = .ok items') :
+    obs items' = obs items := by
+  refine C01_extract_sound sideX U U' [(0, [note 9] ++ [j] ++ [note 8] ++ [j] ++ [segnoE]),
+    (2, [lsE] ++ [j] ++ [leE 2])] [] (by decide) ?_ rfl id t t' ht ht' items items' hp hp'
+  refine .cons 0 (erel_two X j _ _ _) (.cons 2 ?_ .nil)
+  have := ERel.ctx X [.ev j] [lsE] [leE 2]
+  rwa [flatten_jump] at this
+
+example : obsOf U' 0 = obsOf U 0 ∧ obsOf U' 2 = obsOf U 2 ∧ (obsOf U 0).isSome = true ∧
+    (obsOf U 2).isSome = true := by decide
+
+/-- a one-step chain for `C01_passes_preserve` -/
+example : chain S [S'] :=
+  ⟨.fold A0 A1 1 lsE lbE (leE 3) side
+      (fold_songRel (l1 := [(0, [note 5, jmp 1, note 5])]) (l2 := []) (tid := 1) (pre := pre) (post := post) rfl rfl),
+    trivial⟩
+
+end Ex
 
 end Ctrmml.C01
